@@ -535,7 +535,7 @@ pub fn translate(files: &[(&str, &syn::File)], hash_ty: &str, wrap_ty: &str, wan
         WrapTrait(String),
         Free,
     }
-    let mut todo: Vec<(Owner, String, &syn::Signature, &syn::Block)> = Vec::new();
+    let mut todo: Vec<(Owner, String, &syn::Signature, &syn::Block, &[syn::Attribute])> = Vec::new();
     for (_, file) in files {
         for it in &file.items {
             match it {
@@ -550,12 +550,12 @@ pub fn translate(files: &[(&str, &syn::File)], hash_ty: &str, wrap_ty: &str, wan
                                 let qual = format!("{}::{}", hash_ty, name);
                                 w.hash_fns.insert(name.clone(), fn_info(&f.sig, qual.clone(), wrap_ty, false));
                                 if wanted.contains(&name.as_str()) {
-                                    todo.push((Owner::Hash, qual, &f.sig, &f.block));
+                                    todo.push((Owner::Hash, qual, &f.sig, &f.block, &f.attrs[..]));
                                 }
                             } else if ty == wrap_ty && tr.is_none() {
                                 let qual = format!("{}::{}", wrap_ty, name);
                                 w.wrap_fns.insert(name.clone(), fn_info(&f.sig, qual.clone(), wrap_ty, true));
-                                todo.push((Owner::Wrap, qual, &f.sig, &f.block));
+                                todo.push((Owner::Wrap, qual, &f.sig, &f.block, &f.attrs[..]));
                             } else if ty == wrap_ty {
                                 let t = tr.clone().unwrap();
                                 if t == "Debug" {
@@ -565,7 +565,7 @@ pub fn translate(files: &[(&str, &syn::File)], hash_ty: &str, wrap_ty: &str, wan
                                 if t != "From" {
                                     w.wrap_traits.insert((t.clone(), name.clone()), fn_info(&f.sig, qual.clone(), wrap_ty, true));
                                 }
-                                todo.push((Owner::WrapTrait(t), qual, &f.sig, &f.block));
+                                todo.push((Owner::WrapTrait(t), qual, &f.sig, &f.block, &f.attrs[..]));
                             }
                         }
                     }
@@ -574,7 +574,7 @@ pub fn translate(files: &[(&str, &syn::File)], hash_ty: &str, wrap_ty: &str, wan
                     let name = f.sig.ident.to_string();
                     if wanted.contains(&name.as_str()) {
                         w.free_fns.insert(name.clone(), fn_info(&f.sig, name.clone(), wrap_ty, false));
-                        todo.push((Owner::Free, name, &f.sig, &f.block));
+                        todo.push((Owner::Free, name, &f.sig, &f.block, &f.attrs[..]));
                     }
                 }
                 _ => {}
@@ -587,7 +587,7 @@ pub fn translate(files: &[(&str, &syn::File)], hash_ty: &str, wrap_ty: &str, wan
     let _ = writeln!(out, "From Coq Require Import String List NArith.\nFrom HW.Facts Require Import VecLite.\nImport ListNotations.\nLocal Open Scope string_scope.\nLocal Open Scope N_scope.\n");
     let mut entries = Vec::new();
     let mut from_impls = Vec::new();
-    for (k, (owner, qual, sig, block)) in todo.iter().enumerate() {
+    for (k, (owner, qual, sig, block, fattrs)) in todo.iter().enumerate() {
         let in_wrap = matches!(owner, Owner::Wrap | Owner::WrapTrait(_));
         let mut cx = Cx { w: &w, in_wrap, wrap_vars: HashSet::new(), sty: HashMap::new(), alias: HashMap::new(), tmp: 0, expect: None };
         let mut params: Vec<String> = Vec::new();
@@ -631,6 +631,13 @@ pub fn translate(files: &[(&str, &syn::File)], hash_ty: &str, wrap_ty: &str, wan
                     other => body.push(format!("VUnsupported {}", q(&toks(other)))),
                 },
             }
+        }
+        // one body per name, no conditional compilation inside: otherwise the translation would not describe every build
+        if todo.iter().filter(|t| t.1 == *qual).count() > 1 {
+            body.push("VUnsupported \"several functions of this name (conditional compilation?)\"".into());
+        }
+        for c in crate::rustlite::cfg_inside(fattrs, block) {
+            body.push(format!("VUnsupported {}", q(&format!("conditional compilation inside the function: {}", c))));
         }
         let tail = cx.block(block, &mut body);
         let unit = matches!(sig.output, syn::ReturnType::Default);
